@@ -138,4 +138,16 @@ CHECKS = {
                  extra=OP_EXTRA, instrument=OP_INSTR, gomaxprocs=1),
         ],
     },
+    "C17": {
+        "level": "model_checking",
+        "engine": "E1",
+        "technique": "stateless model checking of the assembled operator under a controlled scheduler: shutdown injected at every enumerated point, delay-bounded DFS, virtual clock",
+        "level_text": "Scenario of C03 plus a thread running the operator's own Shutdown() sequence. The moment of the shutdown request is enumerated (after k = 0..12 quick / 0..24 thorough task-handling and hook-run events: queues empty, in a back-off delay after failures, in the middle of a handler, with ticks and events still arriving), and around each such point all schedules with at most 1 (quick) / 2 (thorough) deviations from the default scheduler are executed. Oracle: after the stop request a queue starts at most the task it had already picked (none if its handler was running), each worker reaches its final state at the virtual instant of max(stop request, return of its current handler) i.e. without any timer firing, Shutdown returns, and no hook is executed once all workers have stopped.",
+        "level_note": "Trusted: scheduler, hub, process stand-in, virtual clock. The queue's status string is read only to observe when a worker has terminated.",
+        "rule": "for each (mode, stop point k): DFS over thread choices with at most N deviations; non-trivial = k > 0 or a deviation taken; distinct = distinct (worker stop times, execution list)",
+        "parts": [
+            part("c17", "pkg/shell-operator", "TestVerifC17", ["zz_verif_c17_test.go", "zz_verif_c03_test.go", "zz_verif_fixture_test.go"], shards={"quick": 13, "thorough": 16},
+                 extra=OP_EXTRA, instrument=OP_INSTR, gomaxprocs=1),
+        ],
+    },
 }
